@@ -14,6 +14,7 @@ values, lookup / sequence / filtering-set indices to the sizes of what they inde
 -/
 import SfntV.Proofs.ShapeSafeFull
 import SfntV.Proofs.ShapeReader
+import SfntV.Drive.Shape
 
 namespace SfntV.Props.C07
 open SfntV SfntV.Shape
@@ -168,13 +169,14 @@ theorem C07_no_panic_history (B : Nat) (ll : LookupList) (gd : Gdef) (lookups : 
 says that `s` is the image, under the field-by-field translation of Proofs/ShapeReader.lean, of a
 value that one of the modelled subtable readers (C08's value-level models of `readGsub1_1`,
 `readGsub1_2`, `readGsub2_1`, `readGsub3_1`, `readGsub4_1`, `readGsub8_1`, `readSeqContext1/2/3`,
-`readChainedSeqContext1/2/3`, `readGpos1_1`, `readGpos1_2`, `readGpos3_1`, `readGpos4_1`,
-`readGpos6_1`) returns on SOME byte string — any byte string the reader accepts.  Every such
+`readChainedSeqContext1/2/3`, `readGpos1_1`, `readGpos1_2`, `readGpos2_1`, `readGpos2_2`, `readGpos3_1`,
+`readGpos4_1`, `readGpos6_1` — every subtable kind with an `apply` method; GPOS 5.1's `apply` is a stub) returns on SOME byte string — any byte string the reader accepts.  Every such
 subtable is `guarded` and `chain3Ok`: the coverage indices are inside the arrays
 (`C08_reader_cov_in_range_*` = Proofs/OtlCovRange), context 3 / chained context 3 have a
 non-empty input (the readers reject a zero count), contexts 2 index their rule sets by class
-under a guard; for GPOS 1.1/1.2 the value records are assumed to use implemented fields only
-(`vrImpl`, the exclusion in the property text). -/
+under a guard; the pair adjustments of GPOS 2.1/2.2 are non-nil by construction of the readers;
+for GPOS 1.1/1.2/2.1/2.2 the value records are assumed to use implemented fields only (`vrImpl`,
+the exclusion in the property text). -/
 theorem C07_reader_delivers_shape (s : Subtable) (h : Reader.FromReader s) :
     s.guarded = true ∧ s.chain3Ok = true :=
   Reader.fromReader_shaped h
@@ -193,6 +195,54 @@ engine, and a lookup list built from it satisfies the hypothesis of `C07_no_pani
 example : Otl.Gsub.read12 [0,2, 0,8, 0,1, 0,20, 0,1, 0,2, 0,1, 0,2] = .ok ([(1, 0)], [20]) := by decide +kernel
 example : Reader.FromReader (.gsub12 [(1, 0)] [20]) :=
   .gsub12 [0,2, 0,8, 0,1, 0,20, 0,1, 0,2, 0,1, 0,2] _ _ (by decide +kernel)
+
+/-! ### the translation reader value → engine subtable, checked end to end on one GPOS 2.1 table
+
+24 bytes: format 1, valueFormat1 = XAdvance, one pair set for glyph 1: (second glyph 2, XAdvance −50).
+(a) C08's reader model decodes them; (b) the translation `Reader.pairsOf` of that value equals what
+the driver parses from the harness serialisation `103,1,1,2,1,1,32768,32768,32718,0,0` of the
+subtable the GO reader returns for the same bytes (obtained by running `gtab.VerifReadGposSubtable`
+and the harness encoder on them); (c) the engine applies it: the advance of glyph 1 becomes 450. -/
+
+def exG21Bytes : Bytes := [0,1, 0,12, 0,4, 0,0, 0,1, 0,18, 0,1,0,1,0,1, 0,1, 0,2, 255,206]
+def exG21Sets : List Otl.Gpos.PairSet := [[(2, some [0, 0, 65486, 0, 0, 0, 0, 0], none)]]
+def exG21Pairs := Reader.pairsOf [(1, 0)] exG21Sets
+
+def readIs (o : Outcome (List (Nat × Nat) × List Otl.Gpos.PairSet)) (cov : List (Nat × Nat))
+    (sets : List (List (Nat × Option (List Nat) × Option (List Nat)))) : Bool :=
+  match o with
+  | .ok (c, s) => c == cov && s == sets
+  | _ => false
+
+theorem readIs_eq {o : Outcome (List (Nat × Nat) × List Otl.Gpos.PairSet)} {cov sets}
+    (h : readIs o cov sets = true) : o = .ok (cov, sets) := by
+  cases o with
+  | ok p =>
+    obtain ⟨c, s⟩ := p
+    simp only [readIs, Bool.and_eq_true, beq_iff_eq] at h
+    rw [h.1, h.2]
+  | err e => simp [readIs] at h
+  | panic e => simp [readIs] at h
+
+def sameGpos21 : Option (Subtable × List Nat) → List ((Nat × Nat) × Option PairAdj) → Bool
+  | some (.gpos21 ps, []), qs => ps == qs
+  | _, _ => false
+
+example : readIs (Otl.Gpos.read21 exG21Bytes) [(1, 0)] exG21Sets = true := by decide +kernel
+example : sameGpos21 (SfntV.Drive.Shape.pSubtable [103, 1, 1, 2, 1, 1, 32768, 32768, 32718, 0, 0]) exG21Pairs = true := by
+  decide +kernel
+example : Reader.FromReader (.gpos21 exG21Pairs) :=
+  .gpos21 exG21Bytes [(1, 0)] exG21Sets (readIs_eq (by decide +kernel)) (by
+    intro set hset p hp
+    simp only [exG21Sets, List.mem_singleton] at hset
+    subst hset
+    simp only [List.mem_singleton] at hp
+    subst hp
+    constructor <;> intro k hk <;>
+      (simp only [List.mem_cons, List.not_mem_nil, or_false] at hk
+       rcases hk with h | h | h | h | h <;> subst h <;> rfl))
+example : Shape.apply 64 [⟨0, 0, [.gpos21 exG21Pairs]⟩] {} [0] [] [⟨1, [97], 0, 0, 500⟩, ⟨2, [98], 0, 0, 600⟩]
+    = .ok ⟨[⟨1, [97], 0, 0, 450⟩, ⟨2, [98], 0, 0, 600⟩], []⟩ := by decide +kernel
 
 /-- What remains open: API-built lists that are `guardedLL` but contain a chained context
 format 3 with an EMPTY input sequence (a shape the reader cannot deliver) and a nested ligature
